@@ -86,12 +86,14 @@ theorem Uni.sqLent_toSq (ps : List Pos) (k : Squeeth.PosKey) : sqLent (toSq ps) 
       simp only [hk, hq, if_false, Bool.false_eq_true]
       exact ih
 
-/-- **Composition with the Squeeth part: the hypothesis of `C01_squeeth_pool_side_changes`, discharged.** Let a
+/-- **Composition with the Squeeth part: the hypothesis of `C01_squeeth_pool_side_changes`, discharged.**
+    PARTIAL (`hops`): operation lists that contain a direct `transfer_position_out` / `transfer_position_in` are excluded, and for those
+    the statement is false (`C01_fails_direct_transfer`, Proofs/C01/UniTransfer.lean; known finding `uni.direct-transfer.*`).  Let a
     Squeeth-side state satisfy `Once` (every LP position counted exactly once) and agree with a pool state on which
     keys are lent. After any list of pool operations other than the two transfers — which the Squeeth market itself
     performs and accounts for —, any Squeeth-side state with the same vaults and id counter that agrees with the new
     pool state on the lent keys satisfies `Once` again. -/
-theorem C01_uni_squeeth_once_preserved (K : Kern) (pool : Pool) (minError : Rat) (u : Uni.State) (ops : List Op)
+theorem C01_uni_squeeth_once_preserved_partial (K : Kern) (pool : Pool) (minError : Rat) (u : Uni.State) (ops : List Op)
     (hops : ∀ op ∈ ops, op.isTransfer = false) (sq sq' : Squeeth.State) (h : Squeeth.Once sq)
     (hagree : ∀ k, sqLent sq.positions k = isTransferred u.positions k.1 k.2)
     (hagree' : ∀ k, sqLent sq'.positions k = isTransferred (runOps K pool minError u ops).positions k.1 k.2)
@@ -100,11 +102,11 @@ theorem C01_uni_squeeth_once_preserved (K : Kern) (pool : Pool) (minError : Rat)
     rw [hagree' k, hagree k]; exact C01_uni_ops_keep_lent_positions K pool minError u ops hops k.1 k.2)
 
 /-- … in particular for the Squeeth state that carries the pool's positions themselves -/
-theorem C01_uni_squeeth_once_projected (K : Kern) (pool : Pool) (minError : Rat) (u : Uni.State) (ops : List Op)
+theorem C01_uni_squeeth_once_projected_partial (K : Kern) (pool : Pool) (minError : Rat) (u : Uni.State) (ops : List Op)
     (hops : ∀ op ∈ ops, op.isTransfer = false) (sq : Squeeth.State) (h : Squeeth.Once sq)
     (hpos : sq.positions = toSq u.positions) :
     Squeeth.Once { sq with positions := toSq (runOps K pool minError u ops).positions } :=
-  C01_uni_squeeth_once_preserved K pool minError u ops hops sq _ h
+  C01_uni_squeeth_once_preserved_partial K pool minError u ops hops sq _ h
     (fun k => by rw [hpos]; exact sqLent_toSq _ k) (fun k => sqLent_toSq _ k) rfl rfl
 
 /-! ### non-vacuity: a pool with a lent and a free position; operations that touch both keys -/
